@@ -277,6 +277,32 @@ func (w *c13Worker) check(c c13Case) string {
 		if o.Failed() || len(o.Rets) != 1 || o.Rets[0] != strconv.Itoa(len(want)) {
 			return fail("len of literal "+c.Lit, len(want), fmt.Sprint(o.Rets, o.Err))
 		}
+	case "literal-pair":
+		// the same inner text spelled as an interpreted and as a raw literal in one VM: they denote
+		// different bytes whenever the text contains a backslash
+		inner := c.Lit
+		q, r := "\""+inner+"\"", "`"+inner+"`"
+		wq, err1 := strconv.Unquote(q)
+		wr, err2 := strconv.Unquote(r)
+		if err1 != nil || err2 != nil {
+			return ""
+		}
+		for _, order := range [][2]string{{q, r}, {r, q}} {
+			m := core.NewMachine(core.VMOpts{Optimize: true})
+			o := m.Eval(nil, "func first() string { return "+order[0]+" }; a := first(); b := "+order[1]+"; a; b; len(a)*1000 + len(b)")
+			w0, w1 := wq, wr
+			if order[0] == r {
+				w0, w1 = wr, wq
+			}
+			if o.Failed() || len(o.Rets) != 3 || o.Rets[0] != w0 || o.Rets[1] != w1 || o.Rets[2] != strconv.Itoa(len(w0)*1000+len(w1)) {
+				return fail("literals "+order[0]+" and "+order[1]+" in one program", []string{w0, w1}, fmt.Sprint(o.Rets, o.Err, o.Panic))
+			}
+			// a later Eval that spells the other literal must not change what the earlier function returns
+			o2 := m.Eval(nil, "c := "+order[1]+"; d := first(); d")
+			if o2.Failed() || len(o2.Rets) != 1 || o2.Rets[0] != w0 {
+				return fail("function compiled earlier returns "+order[0]+" after a later Eval spelled "+order[1], w0, fmt.Sprint(o2.Rets, o2.Err))
+			}
+		}
 	case "charlit":
 		want, _, _, err := strconv.UnquoteChar(c.Lit[1:len(c.Lit)-1], '\'')
 		if err != nil {
@@ -397,6 +423,12 @@ func c13Gen(seed int64, idx int) []c13Case {
 	for k := 0; k < 3; k++ {
 		cs = append(cs, c13Case{Op: "literal", Lit: c13RandLiteral(rng)}, c13Case{Op: "charlit", Lit: c13RandCharLit(rng)})
 	}
+	// inner texts valid in both spellings
+	inner := ""
+	for n := rng.Range(1, 6); n > 0; n-- {
+		inner += core.Pick(rng, []string{`\n`, `\t`, `\\`, `\x41`, `\101`, `\u00e9`, "a", "é", " ", "x", `\r`, `\a`})
+	}
+	cs = append(cs, c13Case{Op: "literal-pair", Lit: inner})
 	return cs
 }
 
